@@ -173,6 +173,25 @@ def main():
           errors.append({"k": "estimator_raises", "meta": meta, "pattern": pname, "exc": repr(e)[:200]})
     except Exception as e:
       errors.append({"k": "exc", "meta": meta, "exc": repr(e)[:300]})
+  # depthwise layers with depth_multiplier > 1: the estimator has to look at every filter of every input channel
+  if shard == 2 % nshards:
+    for t in range(3):
+      meta = {"kind": "depthwise_dm2", "wq": "bits4", "iq": "relu4", "bq": "none", "depth": 1}
+      try:
+        i = L.Input((4, 4, 2))
+        x = QActivation(INPUT_Q["relu4"][0], name="in_act")(i)
+        lay = QDepthwiseConv2D((2, 2), depth_multiplier=2 + t % 2, depthwise_quantizer=WEIGHT_Q["bits4"][0](), use_bias=False, name="l1")
+        model = tf.keras.Model(i, lay(x))
+        k = np.full(lay.get_weights()[0].shape, 0.125, dtype=np.float32)
+        k[:, :, t % 2, -1] = 0.875 if t != 1 else -0.875          # the heaviest filter is not the first one of its channel
+        lay.set_weights([k])
+        xin = np.full((1, 4, 4, 2), 1.875, dtype=np.float32)
+        pre = model.predict(xin, verbose=0)
+        sizes = estimate.analyze_accumulator(model, {"l1": (0.0, 1.875)})
+        events.append({"k": "estimate", "meta": meta, "pattern": "dm", "layer": "l1", "cls": "QDepthwiseConv2D",
+                       "size": int(sizes["l1"]), "obs": dy(float(np.max(np.abs(pre)))), "range": [0.0, 1.875]})
+      except Exception as e:
+        errors.append({"k": "estimator_raises", "meta": meta, "pattern": "dm", "exc": repr(e)[:200]})
   write_ndjson("%s.%d.ndjson" % (prefix, shard), events)
   json.dump(errors, open("%s.%d.err.json" % (prefix, shard), "w"))
   print(json.dumps({"events": len(events), "errors": len(errors)}))
